@@ -206,7 +206,13 @@ def classify(p):
                 if a is not None:
                     plain = ":" not in a["pred"]
                     sig = "c06:plain-fact" if (a.get("fact") and plain) else "c06:fact" if a.get("fact") else "c06:goal"
+        if p.get("family") == "shadow":
+            sig = "c06:rule-name-capture"
+        elif p.get("family") == "smartboth":
+            sig = "c06:smart-fact-both-rules"
         out.append(("C06", sig, "atoms %s" % [t[1] for t in fails if t[0] == "temporal"]))
+    if v.get("factrules_missing"):
+        out.append(("C06", "c06:fact-rule-missing", "a temporal rule the predicate reaches was not applied to a fact: %s" % v["factrules_missing"][:3]))
     if v.get("factrules_mismatch"):
         out.append(("C06", "corr:temporal:fact_rules", str(v["factrules_mismatch"][:3])))
     if v.get("ctors") is False:
@@ -276,7 +282,7 @@ def run(ctx, prop):
             d["attempted"] += 1
             d["rejected"] += 1 if m["rejected"] else 0
             d["expected_verdict_failed"] += 1 if m["expected_verdicts_failed"] else 0
-        cl = classify(p) if (v.get("solution") is not True or (v.get("derived") or {}).get("mismatches") or v.get("factrules_mismatch") or v.get("conv_unknown")
+        cl = classify(p) if (v.get("solution") is not True or (v.get("derived") or {}).get("mismatches") or v.get("factrules_mismatch") or v.get("factrules_missing") or v.get("conv_unknown")
                              or v.get("rank_by_positions") is False or (v.get("positions_model") or {}).get("violations")) else []
         if not cl:
             accepted += 1
@@ -285,6 +291,12 @@ def run(ctx, prop):
                 mine.append((p, sig, detail))
     # problems of the field-read family that are satisfiable by construction but reported unsolvable: the expression built for `o.w` does
     # not denote the field of any admissible choice (completeness of the field read; the general claim belongs to C02)
+    # the same for the other directed families whose problems are satisfiable by construction: the planner must not reject them
+    BYC = {"shadow": ("C06", "c06:rule-name-capture"), "smartboth": ("C06", "c06:smart-fact-both-rules"), "fwd": ("C17", "c17:forward-referenced-base-class")}
+    for p in res["problems"]:
+        if p.get("expect") == "sat" and p["status"] in ("unsolvable", "exception") and p["family"] in BYC and BYC[p["family"]][0] == prop:
+            mine.append((dict(p, verdict={"expected": "satisfiable by construction", "reported": p["status"], "what": p.get("what")}), BYC[p["family"]][1],
+                         "valid problem, satisfiable by construction, reported %s %s" % (p["status"], p.get("what", ""))))
     if prop == "C17":
         for p in res["problems"]:
             if p.get("expect") == "sat" and p["status"] == "unsolvable" and p["family"] == "varfield":
